@@ -1333,6 +1333,7 @@ static void builder_cmds(Toks& tk, ArrayBuilder& b, std::ostringstream& out) {
     else if (c == "beginrecord") { std::string n = tk.next(); if (n == "_") b.beginrecord(); else b.beginrecord_check(n); }
     else if (c == "field") b.field_check(tk.next());
     else if (c == "endrecord") b.endrecord();
+    else if (c == "clear") b.clear();
     else if (c == "snap") {
       ContentPtr s = b.snapshot();
       std::ostringstream o; tostr(s, o);
